@@ -25,11 +25,11 @@ _mix = ("Contract-based deductive verification: obligations are generated from t
 
 P("C01", "other", _mix + "Proved: the search loop returns rules only after a positive has_specification for every clock schedule; cache discipline of _ensure_level and count_objects_of_size; provider wiring (set_subrecs); parameter composition of equivalence paths; compositions sound and complete. Bounded: counts vs brute force on the toy universe, 3 rule databases, all options and schedules.", [A2, L1, A7])
 P("C02", "other", _mix + "Proved: extractor self-check (closed, one rule per class); rules_up_to_equivalence; forest keys carry the labels and shifts of the rule; strategy and reverse shifts; default shifts of verification rules. Bounded: closure, unique lhs, independent productivity fixed point (own shifts) on returned specifications.", [A2, A5])
-P("C03", "other", _mix + "Proved: DefaultList, Function (histogram deltas), smallest-gap search, firing condition, initial shifts of an inserted rule, gap bookkeeping, insertion of a key (well-formedness at the call sites). Bounded: least-fixed-point oracle over small rule multisets and all insertion orders.", [A5])
+P("C03", "other", _mix + "Proved: DefaultList, Function (histogram deltas), smallest-gap search, firing condition, initial shifts of an inserted rule, gap bookkeeping, the table invariant (values non-negative, stored keys well formed, rows of the index structures distinct) established by __init__ and kept by add_rule_key/_increase_value/_set_infinite/_process_queue; the propagation loop fires a rule only when all its shifts are positive or infinite and for that rule's own parent, declares infinity only with an empty queue and above the gap, values only grow; add_rule_key records every finite child position among the rules using that class. Not proved: exception freedom of the propagation, the shift-table updates themselves (shift = value(child)+declared-value(parent)), and that the result is the least fixed point. Bounded: least-fixed-point oracle over small rule multisets and all insertion orders.", [A5])
 P("C04", "other", _mix + "Proved: labels of the rules recorded by _expand_class_with_strategy, _clean_labels, RuleDBBase.add, add_rule (recorded under its own labels; set_empty only for non-possibly-empty strategies). Bounded: monitor on RuleDB.add during real searches.", [A2, A4])
 P("C05", "other", _mix + "Proved: add, contains, rules_up_to_equivalence, pruned_dict root and cache discipline, has_specification, which root the tree finders and the extractor are given. Bounded: prune fixed point and all finders on all small rule dictionaries.", [A5, A3])
 P("C06", "other", _mix + "Proved: union-find against a ghost representative map (find with path compression, union by weight, verified flags, edges, one-way table rebuilt over representatives). Bounded: SCC oracle on all short histories (connect_cycles).", [A5])
-P("C07", "other", _mix + "Proved: DisjointUnion.get_sub_objects and __init__ (zero sets), EquivalenceRule.__init__ (kept child), path/equivalence constructors. Bounded: generated objects = brute force, map round trips.", [A2, A4, L1])
+P("C07", "other", _mix + "Proved: DisjointUnion.get_sub_objects and __init__ (zero sets), EquivalenceRule.__init__ (kept child), path/equivalence constructors and maps, the object cache (_ensure_level_objects: level k is built from the constructor's sub-objects of size exactly k with the rule's own providers, cached levels are never rewritten; get_objects returns level n). Bounded: generated objects = brute force, map round trips.", [A2, A4, L1])
 P("C08", "other", _mix + "Proved: threshold walks of both random_sample_sub_objects for every randint outcome (incl. zero-skip and composition weights), Rule.random_sample_object_of_size hands count/samplers/size on. Bounded: exact distribution with enumerated RNG.", [A2, A3, L1])
 P("C09", "other", _mix + "Proved: parameter maps and their builders, CartesianProduct size bounds, compositions sound and complete, DisjointUnion.__init__, EquivalenceRule/EquivalencePathRule constructors. Bounded: rule terms vs brute force for every derived form.", [A2, A3, A4])
 P("C10", "proof", "Every obligation of the shift theorem is generated from the real source and discharged (obligations == discharged); the bounded provider-trace monitor is reported separately and not counted.", [A2, A4])
@@ -38,7 +38,7 @@ P("C12", "other", _mix + "Proved: inverse permutation, stack discipline, inverse
 P("C13", "other", _mix + "Proved: _create_spec rooted at the start label, _eq_path_matches (same length and pairwise match). Bounded: all toy pairs, both finders.", [A2])
 P("C14", "other", _mix + "Proved: contains, key flattening (round-trip lemma), RecomputingDict key-set operations, add in both databases against one contract. Bounded: lock-step of both databases on two universes.", [A2, A5])
 P("C15", "proof", "Every public ClassDB operation is verified against the abstract view (list of keys, emptiness list) with frames; obligations == discharged. Interleaving enumeration is reported separately and not counted.", [A2, A3])
-P("C16", "other", _mix + "Proved: hand-out guard of __next__, add, set_* flags, _iter_helper_working (whole yield sequence). Bounded: level changes and completeness of scheduling on all short histories.", [A5])
+P("C16", "other", _mix + "Proved: the constructors establish the representation invariant, hand-out guard of __next__, add, set_* flags, _iter_helper_working and _iter_helper_curr (whole yield sequences: the first non-empty stage is served for its head label, one packet per strategy of that expansion group in order, then the label moves one stage on / is retired from the last stage), _change_level (exhaustion exactly when nothing waits; as many labels enter the first stage as were waiting; the level counter advances), _populate_staging, do_level. No scheduling function is trusted. Not proved: which labels enter a new level (enumeration of a Counter) and the whole-history statements (no packet twice, completeness once drained). Bounded: completeness of scheduling on all short histories.", [A5])
 P("C17", "other", _mix + "Proved: verified status and class are looked up at the moment of each packet (_expand_classes_for), __eq__/pickle structure (AST obligations). Bounded: pickle/time-limit at every prefix, slicing independence.", [A3, A7])
 P("C18", "other", _mix + "Proved: key sets of every to_jsonable/from_dict pair (rules, strategies, packs, specifications), loaded verification rules rebuilt by the strategy, bijection JSON maps. Bounded: round trips.", [A2, A3])
 P("C19", "other", _mix + "Proved: unexpanded_verified_classes yields exactly the expandable classes, expand_verified exit condition and frame, configuration of the inner searcher. Bounded: toy specifications with (nested) verified classes.", [A2, A3])
